@@ -32,10 +32,10 @@ func (c16) Runs(tier string) int {
 }
 func (c16) Describe() core.Description {
 	return core.Description{
-		Level: "exploration",
-		Rule:  "per run: drawn scheme (integer with drawn plaintext modulus / approximate with drawn scale, slots, ring type), parameters (LogN 5-8, 2-5 Q primes), N in 1..8 parties (optionally a t-out-of-N deployment: set-up, crash of N-t parties, additive shares from the Combiner), input ciphertext at a drawn level after drawn homomorphic operations, drawn noise-flooding sigma; then 1-3 protocol instances drawn from {key switch to a shared key, collective decryption (zero key), public-key switch, encryption-to-shares + shares-to-encryption, refresh, masked transform with a drawn linear slot function and decode/encode flags}; every share travels over the simulated transport (delay/reordering, duplication, serialization through a chunked stream) and is aggregated in arrival order in a drawn aliasing form through a 1-2 level aggregator tree. Non-trivial = at least one transport fault fired and at least one message-model oracle evaluated; distinct = distinct choice traces",
-		Real:  []string{"multiparty.KeySwitchProtocol / PublicKeySwitchProtocol", "mpbgv and mpckks EncToShare / ShareToEnc / Refresh / MaskedTransform protocols (+ShallowCopy)", "share serialization", "bgv/ckks encoder, encryptor, evaluator used to prepare inputs and to decode outputs", "multiparty.Thresholdizer/Combiner in threshold mode"},
-		Stub:  []string{"network (simnet)", "aggregator bookkeeping", "entropy source (deterministic crypto/rand.Reader)", "plaintext reference model (Go integers / big floats)"},
+		Level:  "exploration",
+		Rule:   "per run: drawn scheme (integer with drawn plaintext modulus / approximate with drawn scale, slots, ring type), parameters (LogN 5-8, 2-5 Q primes), N in 1..8 parties (optionally a t-out-of-N deployment: set-up, crash of N-t parties, additive shares from the Combiner), input ciphertext at a drawn level after drawn homomorphic operations, drawn noise-flooding sigma; then 1-3 protocol instances drawn from {key switch to a shared key, collective decryption (zero key), public-key switch, encryption-to-shares + shares-to-encryption, refresh, masked transform with a drawn linear slot function and decode/encode flags}; every share travels over the simulated transport (delay/reordering, duplication, serialization through a chunked stream) and is aggregated in arrival order in a drawn aliasing form through a 1-2 level aggregator tree. Non-trivial = at least one transport fault fired and at least one message-model oracle evaluated; distinct = distinct choice traces",
+		Real:   []string{"multiparty.KeySwitchProtocol / PublicKeySwitchProtocol", "mpbgv and mpckks EncToShare / ShareToEnc / Refresh / MaskedTransform protocols (+ShallowCopy)", "share serialization", "bgv/ckks encoder, encryptor, evaluator used to prepare inputs and to decode outputs", "multiparty.Thresholdizer/Combiner in threshold mode"},
+		Stub:   []string{"network (simnet)", "aggregator bookkeeping", "entropy source (deterministic crypto/rand.Reader)", "plaintext reference model (Go integers / big floats)"},
 		Assume: []string{"exact decoding (integer scheme) is asserted only when a hard noise bound leaves budget: 4*T*(measured input noise + N*share bound) < Q at the relevant level; otherwise the run is counted as budget-skipped", "transform functions are linear slot maps (masking works only for additive functions)", "when the output ciphertext is a distinct object the caller copies the input metadata into it first for the integer scheme (the usage shown by the library's own tests)", "smudging lower bound: empirical sigma over n coefficients >= (1-8/sqrt(2n)) * requested sigma"},
 	}
 }
@@ -212,7 +212,7 @@ func netAggregate(ctx *core.RunCtx, ops *shareOps, shares []any) (any, bool) {
 type c16Deploy struct {
 	ctx    *core.RunCtx
 	params rlwe.Parameters
-	N      int // all parties
+	N      int               // all parties
 	sks    []*rlwe.SecretKey // keys the active parties use in protocols (additive shares in threshold mode)
 	ideal  *rlwe.SecretKey   // sum of the original secrets
 	n      int               // active parties
@@ -305,8 +305,10 @@ func newDeploy(ctx *core.RunCtx, params rlwe.Parameters) *c16Deploy {
 func (d *c16Deploy) ksOps(proto *multiparty.KeySwitchProtocol, level int) *shareOps {
 	ringQ := d.params.RingQ()
 	return &shareOps{
-		name:  "KeySwitchShare",
-		clone: func(s any) any { return &multiparty.KeySwitchShare{Value: *s.(*multiparty.KeySwitchShare).Value.CopyNew()} },
+		name: "KeySwitchShare",
+		clone: func(s any) any {
+			return &multiparty.KeySwitchShare{Value: *s.(*multiparty.KeySwitchShare).Value.CopyNew()}
+		},
 		alloc: func() any { s := proto.AllocateShare(level); return &s },
 		agg: func(a, b, out any) error {
 			return proto.AggregateShares(*a.(*multiparty.KeySwitchShare), *b.(*multiparty.KeySwitchShare), out.(*multiparty.KeySwitchShare))
